@@ -101,6 +101,9 @@ def main():
             st["rel"] = max(st["rel"], r)
     for op in sorted(stats):
         s = stats[op]
+        bad = s["tokmis"] or s["nonfl"] or s["nan"] or s["ulp"] > 64 or s["csum"] > 1e-13
+        if os.environ.get("ONLY_BAD") and not bad:
+            continue
         print(f"{op:22s} n={s['n']:6d} token-count-mismatch={s['tokmis']} non-float-mismatch={s['nonfl']} nan-mismatch={s['nan']} "
               f"max-ulp={s['ulp']} max-rel={s['rel']:.3e} max-cplx/sum-rel={s['csum']:.3e} exact-zero-groups={s['exactzero']}")
     if os.environ.get("SHOW_WORST"):
